@@ -308,6 +308,7 @@ def coupling_e6(ctx, fn, E, live, where):
         muts = [e for e in mid if e[0] == "mut" and e not in rms]
         okv = True
         objs = set()
+        accs = {}
         for e in folds:
             src = e6.root_name(e[2])
             fp = paths_of(e)
@@ -321,6 +322,8 @@ def coupling_e6(ctx, fn, E, live, where):
                 okv = False
                 continue
             objs.add("weights" if src == WL else "biases")
+            if f0[2][0] == "local":
+                accs["weights" if src == WL else "biases"] = f0[2][1]
         divs = [e for e in muts if e[1] == "tensor::Tensor::div_scalar_inplace"]
         other = [e for e in muts if e not in divs]
         if V == "Mean":
@@ -366,15 +369,14 @@ def coupling_e6(ctx, fn, E, live, where):
                 if isinstance(pl, tuple) and pl[0] == "field" and pl[2] in ("weights", "kernels"):
                     inner = e6.is_call(v_, "unnested", 1)
                     src_v = inner[0] if (inner and pl[2] == "kernels") else v_
-                    if e6.find_terms(src_v, lambda u_: u_[0] in ("loopout", "upd", "call")) and (e6.root_name(src_v) not in (None, BL)) and (pl[2] == "weights" or inner):
+                    if e6.root_name(src_v) is not None and e6.root_name(src_v) == accs.get("weights") and (pl[2] == "weights" or inner):
                         got.add(pl[2])
                     else:
                         got.add("?" + pl[2])
                 elif hasb == "Option::Some" and empty_b is not False:
                     got.add("bias")       # (a member with a bias while no bias was gathered: not a reachable combination; judged on the other paths)
-                elif hasb == "Option::Some" and (e6.contains(v_, ("local", BL)) or e6.root_name(v_) == BL or e6.find_terms(v_, lambda u_: u_[0] == "loopout" and u_[1] == BL)
-                                                 or e6.find_terms(v_, lambda u_: u_[0] == "call" and u_[1].endswith("::remove") and e6.root_name(u_[2][0]) == BL)):
-                    got.add("bias")
+                elif hasb == "Option::Some" and e6.root_name(v_) is not None and e6.root_name(v_) == accs.get("biases"):
+                    got.add("bias")       # the combined bias (the accumulator the bias folds ran on), not a gathered original
                 else:
                     got.add("?" + e6.show(pl, 2)[:20])
             key = kind if not (kind == "Dense" and hasb != "Option::Some") else "Dense-nobias"
